@@ -223,10 +223,18 @@ func checkC09(c *Ctx, r *Report) {
 		problems = append(problems, fmt.Sprintf("%d stores to Truncated", len(tcs)))
 	} else {
 		phi, ok := tcs[0].Val.(*ssa.Phi)
+		sawOld := false
+		if b, isTrue := constBool(tcs[0].Val); !ok && isTrue && b {
+			// `if dropped { dns.Truncated = true }`: the bit is only ever set, under the disjunction kept in a local
+			for _, f := range factsAt(fn, tcs[0].Block()) {
+				if p, isPhi := f.Atom.(*ssa.Phi); isPhi && f.Holds {
+					phi, ok, sawOld = p, true, true
+				}
+			}
+		}
 		if !ok {
 			problems = append(problems, fmt.Sprintf("Truncated is set to %v, not to a disjunction with its previous value", tcs[0].Val))
 		} else {
-			sawOld := false
 			seenSec := map[string]bool{}
 			checkCmp := func(v ssa.Value) {
 				b, ok := v.(*ssa.BinOp)
@@ -402,10 +410,21 @@ func checkC09(c *Ctx, r *Report) {
 		sizeV, lV := paramOf(tf, "size"), paramOf(tf, "l")
 		_ = lV
 		okCut := false
-		for _, rp := range returnPoints(tf, 1) {
+		type rawRet struct {
+			Block   *ssa.BasicBlock
+			Results []ssa.Value
+		}
+		var rets []rawRet
+		for _, b := range tf.Blocks {
+			if ret, ok := b.Instrs[len(b.Instrs)-1].(*ssa.Return); ok && len(ret.Results) == 2 {
+				rets = append(rets, rawRet{b, ret.Results})
+			}
+		}
+		for _, rp := range rets {
 			for _, f := range factsAt(tf, rp.Block) {
 				if matchGuard(f, Guard{Op: "lt", A: isValue(sizeV), B: func(v ssa.Value) bool { _, isB := v.(*ssa.BinOp); return isB }, Holds: true}) {
-					// the count returned is the index of the record that did not fit
+					// the count returned is the index of the record that did not fit (the loop variable itself, as it is
+					// at the cut: not expanded into what it may have been on the way in)
 					if isLoopCounter(rp.Results[1]) || func() bool { _, isPhi := rp.Results[1].(*ssa.Phi); return isPhi }() {
 						okCut = true
 					}
